@@ -1833,7 +1833,7 @@ output(std::ostream &out, int indent_level, CPPScope *scope, bool) const {
           if (isprint(*si)) {
             out << *si;
           } else {
-            out << '\\' << std::oct << std::setw(3) << std::setfill('0') << (int)(*si)
+            out << '\\' << std::oct << std::setw(3) << std::setfill('0') << (int)(unsigned char)(*si)
                 << std::dec << std::setw(0);
           }
         }
